@@ -46,20 +46,30 @@ Definition pbl_range (prefix start : okey) : option (okey * okey) :=
   end.
 
 (* ---- the caller's buffer (C23 finding, repaired) ----
-   A Go slice seen by its caller: the backing array from the slice's start ([g_arr], its length is
-   the capacity) and the slice length.  append(a, b...) writes in place when the capacity
-   suffices; the pinned tree appended [start] to a slice aliasing the caller's [prefix]. *)
-Record gslice := { g_arr : list N; g_len : nat }.
-(* the caller's backing array after append(a, b...) *)
-Definition append_in_place (a : gslice) (b : key) : list N :=
-  if Nat.leb (g_len a + length b)%nat (length (g_arr a))
-  then firstn (g_len a) (g_arr a) ++ b ++ skipn (g_len a + length b)%nat (g_arr a)
-  else g_arr a.
-(* pinned tree: r.Start = append(r.Start, start...) with r.Start == prefix *)
-Definition caller_buffer_after_range_old (prefix : gslice) (start : key) : list N :=
-  append_in_place prefix start.
-(* repaired: the bound is copied first, the append works on the copy *)
-Definition caller_buffer_after_range (prefix : gslice) (start : key) : list N := g_arr prefix.
+   A tiny model of Go slices over a memory of byte arrays: an array is addressed by its index in
+   the memory, its length is its capacity; a slice is (array, length) starting at offset 0.
+   append(s, b...) writes IN PLACE into s's array when the capacity suffices and allocates a new
+   array otherwise; append([]byte(nil), s...) allocates an exact copy. *)
+Definition memory := list (list N).
+Record gslice := { g_arr : nat; g_len : nat }.
+Definition slice_bytes (m : memory) (s : gslice) : key := firstn (g_len s) (nth (g_arr s) m []).
+
+Definition go_append_mem (m : memory) (s : gslice) (b : key) : memory * gslice :=
+  let arr := nth (g_arr s) m [] in
+  if Nat.leb (g_len s + length b) (length arr)
+  then (set_nth (g_arr s) (firstn (g_len s) arr ++ b ++ skipn (g_len s + length b) arr) [] m,
+        {| g_arr := g_arr s; g_len := g_len s + length b |})
+  else (m ++ [firstn (g_len s) arr ++ b],
+        {| g_arr := length m; g_len := g_len s + length b |}).
+Definition go_copy_mem (m : memory) (s : gslice) : memory * gslice :=
+  (m ++ [slice_bytes m s], {| g_arr := length m; g_len := g_len s |}).
+
+(* pinned tree: r.Start = append(r.Start, start...) where r.Start IS the caller's prefix *)
+Definition range_start_old (m : memory) (prefix : gslice) (start : key) : memory * gslice :=
+  go_append_mem m prefix start.
+(* repaired: r.Start = append(append([]byte(nil), r.Start...), start...) *)
+Definition range_start (m : memory) (prefix : gslice) (start : key) : memory * gslice :=
+  let '(m1, c) := go_copy_mem m prefix in go_append_mem m1 c start.
 
 (* the engines: keys k with lo <= k < hi (a nil bound = unbounded), ascending *)
 Definition in_bounds (lo hi : okey) (k : key) : bool :=
